@@ -267,3 +267,78 @@ package storagesc
 //@   at-call moveToBlobber assert[counter-not-behind-the-last-redeemed] commitRead.ReadMarker.ReadCounter >= lastKnownCtr && commitRead.ReadMarker.ReadCounter > 0
 // (for fewer than 2^47 new reads: beyond that the byte count wraps in int64 - 9 exabytes read through one marker)
 //@   at-call moveToBlobber assert[charges-price-times-new-reads] commitRead.ReadMarker.ReadCounter - lastKnownCtr < 140737488355328 ==> $arg4 == trunc(float64(details.Terms.ReadPrice) * f64_gb((commitRead.ReadMarker.ReadCounter - lastKnownCtr) * 65536))
+
+// ---------------------------------------------------------------- closing an allocation (C14)
+//   $closeSteps   specification-only counter: +1 when the open challenges are settled (the first effectful
+//                 step of a close), +10 at finishAllocation, +100 when the allocation is deleted from state
+//   $refunds      number of write-pool refunds queued by finishAllocation
+//@ ghost $closeSteps Int accumulator
+//@ ghost $refunds Int accumulator
+//@ func (*lockRequest).decode
+//@   trusted
+//@   modifies lr.$all
+// An allocation is finalized by its owner or by one of its blobbers.
+//@ func (*storageAllocationBase).IsValidFinalizer
+//@   prop C14
+//@   ensures[owner-or-one-of-its-blobbers] result <==> (sab.Owner == id || (exists k in 0..len(sab.BlobberAllocs) :: sab.BlobberAllocs[k].BlobberID == id))
+//@   modifies nothing
+//@   loop 1 header "for _, d := range sab.BlobberAllocs"
+//@   loop 1 invariant forall k in 0..$idx+1 :: sab.BlobberAllocs[k].BlobberID != id
+
+// cancel: only the owner, only before expiry; the steps settle - finish - delete happen in this order, each
+// once, on the allocation that was checked; a successful cancel has finished and deleted the allocation.
+//@ func (*StorageSmartContract).cancelAllocationRequest
+//@   prop C14
+//@   requires sc != nil && t != nil && balances != nil
+//@   opaque settleOpenChallengesAndGetPassRates, reduceOffer, Offer, WithActivation, finishAllocation, mustUpdateBase, buildDbUpdates, EmitEvent, getStakePool
+//@   at-call settleOpenChallengesAndGetPassRates ghost $closeSteps += 1
+//@   at-call finishAllocation ghost $closeSteps += 10
+//@   at-call DeleteTrieNode ghost $closeSteps += 100
+//@   at-call settleOpenChallengesAndGetPassRates assert[only-the-owner-before-expiry] $arg1 == alloc && alloc.Owner == t.ClientID && alloc.Expiration >= t.CreationDate
+//@   at-call finishAllocation assert[finishes-the-checked-allocation] $arg3 == alloc && $arg1 == t && $closeSteps == old($closeSteps) + 1
+//@   at-call DeleteTrieNode assert[deleted-only-after-finishing] $closeSteps == old($closeSteps) + 11
+//@   ensures[finished-and-deleted] err == nil ==> $closeSteps == old($closeSteps) + 111
+
+// finalize: only the owner or one of the allocation's blobbers, only once (not already finalized), only
+// after expiry; then as for cancel. finalizeAllocation deletes the allocation it finalized.
+//@ func (*StorageSmartContract).finalizeAllocationInternal
+//@   prop C14
+//@   requires sc != nil && t != nil && balances != nil
+//@   opaque settleOpenChallengesAndGetPassRates, reduceOffer, Offer, WithActivation, finishAllocation, mustUpdateBase, buildDbUpdates, EmitEvent, getStakePool
+//@   at-call settleOpenChallengesAndGetPassRates ghost $closeSteps += 1
+//@   at-call finishAllocation ghost $closeSteps += 10
+//@   at-call settleOpenChallengesAndGetPassRates assert[a-valid-finalizer-once-after-expiry] $arg1 == alloc && (alloc.Owner == t.ClientID || (exists k in 0..len(alloc.BlobberAllocs) :: alloc.BlobberAllocs[k].BlobberID == t.ClientID)) && !alloc.Finalized && alloc.Expiration <= t.CreationDate
+//@   at-call finishAllocation assert[finishes-the-checked-allocation] $arg3 == alloc && $arg1 == t && $closeSteps == old($closeSteps) + 1
+//@   ensures[finished] result1 == nil ==> $closeSteps == old($closeSteps) + 11
+//@ func (*StorageSmartContract).finalizeAllocation
+//@   prop C14
+//@   requires sc != nil && t != nil && balances != nil
+//@   opaque finalizeAllocationInternal, GetKey
+//@   at-call DeleteTrieNode assert[deleted-only-after-finalizing] err == nil
+
+// finishAllocation refunds, exactly once, whatever is left in the write pool after the blobbers' payments
+// to the allocation's owner from the contract's wallet, and leaves the write pool empty.
+//@ func (*StorageSmartContract).finishAllocation
+//@   prop C14
+//@   requires sc != nil && t != nil && alloc != nil && balances != nil
+//@   opaque payCostForDtuForEnterpriseAllocation, payChallengePoolPassPayments, payCancellationCharge, Save, getBlobber, mustUpdateBase, mustBase, InsertTrieNode, emitUpdateBlobberAllocatedSavedHealth, getChallengePool, removeAllocationFromBlobberPartitions, stake, ConvertToUint64, PartitionsChallengeReadyBlobberUpdate, deleteChallengePool, GetKey
+//@   at-call AddTransfer ghost $refunds += 1
+//@   at-call AddTransfer assert[refunds-the-rest-to-the-owner] $arg1.ClientID == sc.ID && $arg1.ToClientID == alloc.Owner && $arg1.Amount == alloc.WritePool
+//@   ensures[one-refund-and-an-empty-write-pool] err == nil ==> $refunds == old($refunds) + 1 && alloc.WritePool == 0
+
+// The cancellation charge handed to the per-blobber payments is capped by what the write pool holds.
+//@ func (*storageAllocationBase).cancellationCharge
+//@   trusted
+//@   modifies nothing
+//@ func (*storageAllocationBase).payCancellationCharge
+//@   prop C14
+//@   requires sab != nil && balances != nil && t != nil && conf != nil
+//@   opaque payCancellationCharge
+//@   at-call payCancellationCharge assert[charge-capped-by-the-write-pool] $arg7 == cancellationCharge && cancellationCharge <= old(sab.WritePool)
+
+// No further lock can touch a closed allocation.
+//@ func (*StorageSmartContract).writePoolLock
+//@   prop C14
+//@   requires ssc != nil && txn != nil && balances != nil
+//@   opaque mustUpdateBase, saveUpdatedStakes, CheckClientBalance
+//@   at-call mustUpdateBase assert[not-into-a-closed-allocation] !alloc.Finalized && !alloc.Canceled
